@@ -7,6 +7,7 @@ import (
 	"fmt"
 	"io"
 	"os"
+	"regexp"
 	"runtime"
 	"sort"
 	"strings"
@@ -306,6 +307,10 @@ const (
 // stall rule is applied to the Serve goroutine (and, with actions set, to the
 // harness's helper calls).
 func (e *env) wait(cond func() bool, what string, actions bool) int {
+	// Poll with growing pauses: as soon as nobody sits in a transport read and a
+	// first sample shows Serve (or a helper call) parked in a library wait, the
+	// three-sample rule is applied; otherwise keep waiting.
+	pause := 40 * time.Millisecond
 	for {
 		if cond() {
 			return waitOK
@@ -313,10 +318,11 @@ func (e *env) wait(cond func() bool, what string, actions bool) int {
 		select {
 		case <-e.sig:
 			continue
-		case <-time.After(grace):
+		case <-time.After(pause):
 		}
-		e.c.Count("grace_expired", 1)
-		e.c.Count("grace:"+strings.SplitN(what, " ", 3)[0]+"_"+strings.SplitN(what+" x", " ", 3)[1], 1)
+		if pause < grace {
+			pause *= 2
+		}
 		if cond() {
 			return waitOK
 		}
@@ -325,13 +331,37 @@ func (e *env) wait(cond func() bool, what string, actions bool) int {
 			// a transport read: more input could still wake everything, so this is
 			// not a quiescent state and nothing is judged.  Only possible before
 			// the input was ended.
-			return waitIdle
+			if pause >= grace {
+				e.c.Count("wait_gave_up_library_reading", 1)
+				return waitIdle
+			}
+			continue
 		}
-		parked := stall.Check(nil, 0)
-		for _, p := range parked {
-			inServe := strings.Contains(p.Stack, "mellium.im/xmpp.(*Session).Serve(")
+		relevant := func(p stall.Parked) (inServe, ok bool) {
+			inServe = strings.Contains(p.Stack, "mellium.im/xmpp.(*Session).Serve(")
 			inAction := actions && strings.Contains(p.Stack, "props/c09.(*env).start.") && !strings.Contains(p.Stack, "ibb.(*stanzaWriter).Write")
-			if !inServe && !inAction {
+			return inServe, inServe || inAction
+		}
+		first := false
+		for _, p := range stall.Snapshot(nil) {
+			if _, ok := relevant(p); ok {
+				first = true
+			}
+		}
+		if !first {
+			continue
+		}
+		e.c.Count("stall_rule_applied", 1)
+		parked := stall.Check(nil, 0)
+		if len(parked) > 0 && !quiescent() {
+			// some goroutine of this process is runnable: it may be the one that is
+			// going to wake the parked ones (the machine may be heavily loaded)
+			e.c.Count("stall_rule_not_quiescent", 1)
+			continue
+		}
+		for _, p := range parked {
+			inServe, ok := relevant(p)
+			if !ok {
 				continue
 			}
 			if cond() {
@@ -352,7 +382,7 @@ func (e *env) wait(cond func() bool, what string, actions bool) int {
 				return waitStall
 			}
 			form := "wellformed-input"
-			if st := xmltree.ParseStream(e.input(), true); st.Err != nil {
+			if st := xmltree.ParseStream(e.input(), true); st.Err != nil || st.Trailing {
 				form = "malformed-input"
 			}
 			e.c.Violate(stall.Key(p)+":"+e.stallTag()+":"+form, "%s goroutine parked for good in %s (%s) while waiting for %s; every harness actor idle\n%s", who, p.Func, p.State, what, core.TrimStack(p.Stack))
@@ -366,6 +396,33 @@ func (e *env) wait(cond func() bool, what string, actions bool) int {
 			return waitStall
 		}
 	}
+}
+
+var gHdr = regexp.MustCompile(`(?m)^goroutine \d+ \[([^\],]+)`)
+
+// quiescent reports whether every goroutine of the process except the caller
+// is blocked (none runnable or running), in two dumps a moment apart.
+func quiescent() bool {
+	for i := 0; i < 2; i++ {
+		buf := make([]byte, 4<<20)
+		n := runtime.Stack(buf, true)
+		running := 0
+		for _, m := range gHdr.FindAllSubmatch(buf[:n], -1) {
+			switch string(m[1]) {
+			case "running":
+				running++
+			case "runnable", "syscall":
+				return false
+			}
+		}
+		if running > 1 {
+			return false
+		}
+		if i == 0 {
+			time.Sleep(50 * time.Millisecond)
+		}
+	}
+	return true
 }
 
 // stallTag names the application calls that were made in this case: a Serve
